@@ -3,7 +3,7 @@
    of every round is pushed through the model of `hwloc_topology_insert_group_object` (`Hw.Topo.Ins.insertGroup`, the one the
    C02 engine uses) on the tree of the dump taken BEFORE the commit; the predicted tree is compared with the tree of the dump
    taken AFTER the commit, and the after-dump is judged by the C01 oracle. -/
-import Hw.Attr.Grouping
+import Hw.Attr.GroupingSets
 import Driver.Topo
 namespace Driver.GroupingEng
 open Hw.Topo Driver
@@ -79,8 +79,10 @@ def runRounds (d : Dump) (root : Obj) (numas : List (Nat × Nat)) :
     List Hw.Grouping.Round → (sets : Nat → Nat) → (subkind base : Nat) → Walk → Walk × Nat
   | [], _, subkind, _, w => (w, subkind)
   | r :: rs, sets, subkind, base, w =>
-    let keys := (List.range r.nb).map (Hw.Grouping.groupSet sets r)
-    let w' := (keys.zipIdx).foldl (fun w (p : Nat × Nat) => insertOne d root numas subkind w (PLACEHOLDER + base + p.2) p.1) w
+    -- the Group objects of this round as the model builds them (`Hw.Grouping.roundObjs`: key = union of the members' cpusets)
+    let objs := Hw.Grouping.roundObjs sets r subkind (PLACEHOLDER + base)
+    let keys := objs.map (·.key)
+    let w' := objs.foldl (fun w o => insertOne d root numas o.subkind w o.gp o.key) w
     if w'.failed then (w', subkind + 1)
     else runRounds d root numas rs (fun g => keys.getD g 0) (subkind + 1) (base + r.nb) w'
 
